@@ -29,16 +29,6 @@ import (
 )
 
 func c10Must(ctx *core.Ctx, in c10Input, kind string) {
-	// Close is called at most once per script: a second one becomes a 1 ms advance
-	seen := false
-	for i := range in.Ops {
-		if in.Ops[i].Op == "close" {
-			if seen {
-				in.Ops[i] = c10Op{Op: "adv", D: 1}
-			}
-			seen = true
-		}
-	}
 	if err := c10RunCase(ctx, in, kind); err != nil {
 		panic(fmt.Sprintf("c10 generator produced an invalid script (%s): %v", kind, err))
 	}
@@ -198,7 +188,10 @@ func c10TailOps(t string, st, other, iv int, r *hx.Rand) []c10Op {
 }
 
 // c10StallBase: subscribers (the stalled one among them) + a burst of n values, one per interval.
-// layout 0: stalled only; 1: stalled, prompt; 2: prompt, stalled; 3: prompt, stalled, on-command.
+// layout 0: stalled only; 1: stalled, prompt; 2: prompt, stalled; 3: prompt, stalled, on-command;
+// 4: leaver, stalled, prompt, prompt (other = the leaver BEFORE the stalled one in the subscriber
+// list); 5: prompt, prompt, stalled, prompt, leaver (other = the last one): subscribers registered
+// after the one the fan-out is blocked on, so that a deregistration during the fan-out matters.
 func c10StallBase(iv, layout, n int) (in c10Input, stalled, other int) {
 	in = c10Input{Interval: iv}
 	switch layout {
@@ -211,10 +204,18 @@ func c10StallBase(iv, layout, n int) (in c10Input, stalled, other int) {
 	case 2:
 		in.Ops = append(in.Ops, c10Op{Op: "sub", P: true}, c10Op{Op: "sub", P: false})
 		stalled, other = 1, 0
-	default:
+	case 3:
 		in.Ops = append(in.Ops, c10Op{Op: "sub", P: true}, c10Op{Op: "sub", P: false}, c10Op{Op: "sub", P: false},
 			c10Op{Op: "readall", I: 2})
 		stalled, other = 1, 2
+	case 4:
+		in.Ops = append(in.Ops, c10Op{Op: "sub", P: true}, c10Op{Op: "sub", P: false}, c10Op{Op: "sub", P: true},
+			c10Op{Op: "sub", P: true})
+		stalled, other = 1, 0
+	default:
+		in.Ops = append(in.Ops, c10Op{Op: "sub", P: true}, c10Op{Op: "sub", P: true}, c10Op{Op: "sub", P: false},
+			c10Op{Op: "sub", P: true}, c10Op{Op: "sub", P: true})
+		stalled, other = 2, 4
 	}
 	in.Ops = append(in.Ops, c10Op{Op: "burst", K: 0, D: iv, N: n})
 	return in, stalled, other
@@ -250,7 +251,7 @@ func c10Gen(ctx *core.Ctx) {
 	for _, n := range sizes {
 		for _, t1 := range c10Tails {
 			for _, t2 := range c10Tails {
-				layout := r.Intn(4)
+				layout := r.Intn(6)
 				iv := []int{2, 10}[r.Intn(2)]
 				in, st, other := c10StallBase(iv, layout, n)
 				in.Ops = append(in.Ops, c10TailOps(t1, st, other, iv, r)...)
@@ -267,7 +268,7 @@ func c10Gen(ctx *core.Ctx) {
 	// random longer tails, other burst sizes
 	for i := 0; i < 40*scale; i++ {
 		n := []int{50, 51, 52, 53, 55, 60}[r.Intn(6)]
-		layout := r.Intn(4)
+		layout := r.Intn(6)
 		iv := []int{2, 10}[r.Intn(2)]
 		in, st, other := c10StallBase(iv, layout, n)
 		for j, m := 0, r.Range(1, 5); j < m; j++ {
@@ -350,6 +351,94 @@ func c10Gen(ctx *core.Ctx) {
 			in.Ops = append(in.Ops, c10Op{Op: "close"})
 		}
 		c10Must(ctx, in, "expiry")
+	}
+
+	// --- leave: a subscriber deregisters WHILE a fan-out is in progress (blocked on a stalled one that
+	// then resumes), with subscribers registered before and after both; more values follow
+	for i := 0; i < 16*scale; i++ {
+		iv := 2
+		in, st, other := c10StallBase(iv, 4+i%2, 52)
+		leaver := other
+		if i%4 >= 2 { // another position
+			leaver = []int{2, 3}[r.Intn(2)]
+		}
+		in.Ops = append(in.Ops, c10Op{Op: "cancel", I: leaver})
+		if r.Bool() {
+			in.Ops = append(in.Ops, c10Op{Op: "sub", P: true})
+		}
+		in.Ops = append(in.Ops, c10Op{Op: "readall", I: st}, c10Op{Op: "adv", D: iv},
+			c10Op{Op: "batch", K: 500}, c10Op{Op: "adv", D: iv}, c10Op{Op: "batch", K: 501}, c10Op{Op: "adv", D: iv})
+		c10Must(ctx, in, "leave")
+	}
+	// --- churn: subscribers join and leave in every order (not only last-in-first-out), values
+	// in between: every subscriber that stayed must get every value
+	for i := 0; i < 40*scale; i++ {
+		iv := []int{2, 5}[r.Intn(2)]
+		in := c10Input{Interval: iv}
+		live := []int{}
+		nsub := 0
+		for round, rounds := 0, r.Range(2, 4); round < rounds; round++ {
+			for j, m := 0, r.Range(1, 3); j < m && nsub < 8; j++ {
+				in.Ops = append(in.Ops, c10Op{Op: "sub", P: true})
+				live = append(live, nsub)
+				nsub++
+			}
+			for j, m := 0, r.Range(0, 2); j < m && len(live) > 1; j++ {
+				k := r.Intn(len(live) - 1) // never the most recent one only: any but biased to older
+				if r.Chance(1, 4) {
+					k = len(live) - 1
+				}
+				in.Ops = append(in.Ops, c10Op{Op: "cancel", I: live[k]})
+				live = append(live[:k], live[k+1:]...)
+			}
+			if r.Chance(2, 3) {
+				in.Ops = append(in.Ops, c10Op{Op: "batch", K: round}, c10Op{Op: "adv", D: iv})
+			}
+		}
+		in.Ops = append(in.Ops, c10Op{Op: "batch", K: 9}, c10Op{Op: "adv", D: iv})
+		if r.Bool() {
+			in.Ops = append(in.Ops, c10Op{Op: "close"})
+		}
+		c10Must(ctx, in, "churn")
+	}
+
+	// --- closes: Close called several times, overlapping or one after the other -----------------
+	// (a) while the first is held up by a delivery blocked on a live stalled subscriber: 1..3
+	//     further calls, then one way of releasing (or none), then possibly yet another call
+	for i := 0; i < 36*scale; i++ {
+		iv := []int{2, 10}[r.Intn(2)]
+		in, st, other := c10StallBase(iv, r.Intn(6), []int{52, 52, 53, 55}[r.Intn(4)])
+		in.Ops = append(in.Ops, c10Op{Op: "close"})
+		for j, m := 0, r.Range(1, 3); j < m; j++ {
+			if r.Chance(1, 3) {
+				in.Ops = append(in.Ops, c10TailOps([]string{"adv", "batch", "sub", "cancel-other"}[r.Intn(4)], st, other, iv, r)...)
+			}
+			in.Ops = append(in.Ops, c10Op{Op: "close"})
+		}
+		switch i % 4 {
+		case 0:
+			in.Ops = append(in.Ops, c10Op{Op: "cancel", I: st})
+		case 1:
+			in.Ops = append(in.Ops, c10Op{Op: "readall", I: st})
+		case 2:
+			in.Ops = append(in.Ops, c10Op{Op: "read", I: st}, c10Op{Op: "close"}, c10Op{Op: "cancel", I: st})
+		}
+		if r.Bool() {
+			in.Ops = append(in.Ops, c10Op{Op: "close"}, c10Op{Op: "adv", D: iv})
+		}
+		c10Must(ctx, in, "closes")
+	}
+	// (b) nothing blocked: Close, Close; Close between Batches and Subscribes; a further Close
+	//     inserted at every position after the first one of a short script
+	shortc := []c10Op{{Op: "sub", P: true}, {Op: "sub", P: false}, {Op: "batch", K: 0}, {Op: "adv", D: 10},
+		{Op: "batch", K: 1}, {Op: "close"}, {Op: "batch", K: 0}, {Op: "sub", P: true}, {Op: "adv", D: 10},
+		{Op: "readall", I: 1}, {Op: "adv", D: 1}}
+	for pos := 1; pos <= len(shortc); pos++ {
+		in := c10Input{Interval: 10, Ops: c10Insert(shortc, pos, c10Op{Op: "close"})}
+		if r.Bool() {
+			in.Ops = append(in.Ops, c10Op{Op: "close"})
+		}
+		c10Must(ctx, in, "closes")
 	}
 
 	// --- multi: several stalled subscribers leave one after the other ---------------------------
